@@ -238,7 +238,7 @@ theorem initSt_inv {e : Env} {pool : List Tx} (hp : PoolOk pool) (he : EnvOk e) 
       rw [this] at hh
       cases hh
     refine ⟨hns, Or.inl ?_⟩
-    rcases hp.chainOnlyU t ht i hi (by simp [hc]) with ⟨k, hk⟩
+    rcases isWorldOutput_iff (hp.chainOnlyU t ht i hi (by simp [hc])) with ⟨k, hk⟩
     refine ⟨c, k, by rw [← ho]; exact hk, ?_, hen⟩
     rw [← ho]; exact chainGet_of_mem hp ht hi hc
   · show initWeight e = _
